@@ -72,7 +72,7 @@ func newWorldW(big, wipe bool) *world {
 		os.Setenv("VERIF_C20_DIR", root)
 	}
 	w := &world{root: root, expDir: filepath.Join(root, "exp"), file: filepath.Join(root, "world.txt"),
-		ver: map[string]int{"a": 1, "b": 1}, deps: map[string][]string{"a": {"b", "fmt"}, "b": {"fmt"}}, hist: map[string][]int{}}
+		ver: map[string]int{"a": 1, "b": 1, "d": 1}, deps: map[string][]string{"a": {"b", "fmt"}, "b": {"d", "fmt"}, "d": nil}, hist: map[string][]int{}}
 	if big {
 		var ds []string
 		for i := 1; i <= 12; i++ {
@@ -277,6 +277,10 @@ func (m *model) step(o op) expect {
 	case "prepare":
 		m.nlist++
 		m.list(o.Pkg)
+	case "prepare2":
+		m.nlist++
+		m.list("a")
+		m.list("b")
 	case "find", "findfail", "findmal":
 		listOK := o.Kind == "find"
 		wasFresh := m.fresh(o.Pkg)
@@ -321,7 +325,7 @@ func (m *model) step(o op) expect {
 func (m *model) key() string {
 	var b strings.Builder
 	ps := []string{"a", "b"}
-	for _, p := range ps {
+	for _, p := range []string{"a", "b", "d"} {
 		fmt.Fprintf(&b, "%s=%d;", p, m.ver[p])
 	}
 	dump := func(tag string, es map[string]*entry, withFiles bool) {
@@ -364,6 +368,7 @@ func (o op) String() string {
 var alphabet = []op{
 	{"find", "a"}, {"find", "b"}, {"prepare", "a"}, {"prepare", "b"}, {"bump", "a"}, {"bump", "b"},
 	{"rmexp", "a"}, {"findfail", "a"}, {"findmal", "a"}, {"restart", ""},
+	{"bump", "d"}, {"prepare2", ""}, // one listing of both packages (Prepare(dir, "a", "b"))
 }
 
 type system struct {
@@ -416,6 +421,10 @@ func (s *system) apply(o op) string {
 		}
 	case "prepare":
 		if err := s.c.Prepare(w.root, o.Pkg); err != nil {
+			return fmt.Sprintf("%v: listing succeeded but Prepare returned %v", o, err)
+		}
+	case "prepare2":
+		if err := s.c.Prepare(w.root, "a", "b"); err != nil {
 			return fmt.Sprintf("%v: listing succeeded but Prepare returned %v", o, err)
 		}
 	case "find", "findfail", "findmal":
@@ -570,9 +579,9 @@ func histString(h []op) string {
 // nothing); every transition = shortest history reaching the state + one operation is replayed on the real
 // cache by the worker that owns it. Versions are capped so that the state space is finite.
 func stageH(c *vf.Ctx) {
-	capVer := 3
+	capVer := 2
 	if c.Thorough() {
-		capVer = 4
+		capVer = 3
 	}
 	type node struct{ hist []op }
 	start := newSystem(false).m
@@ -585,7 +594,7 @@ func stageH(c *vf.Ctx) {
 		queue = queue[1:]
 		// model state after n.hist
 		for _, o := range alphabet {
-			m := newModel(&world{ver: map[string]int{"a": 1, "b": 1}, deps: start.deps, expDir: start.expDir})
+			m := newModel(&world{ver: map[string]int{"a": 1, "b": 1, "d": 1}, deps: start.deps, expDir: start.expDir})
 			for _, p := range n.hist {
 				m.step(p)
 			}
@@ -669,12 +678,12 @@ func classOf(bad string) string {
 		return "stale-entry-left"
 	case strings.Contains(bad, "not the current data at any moment"):
 		return "not-current-during-call"
+	case strings.Contains(bad, "but Find returned error"):
+		return "available-data-not-served"
 	case strings.Contains(bad, "served"):
 		return "stale-data-served"
 	case strings.Contains(bad, "listings, the model expects"):
 		return "listing-count"
-	case strings.Contains(bad, "but Find returned error"):
-		return "available-data-not-served"
 	case strings.Contains(bad, "restart"):
 		return "save-load"
 	}
